@@ -40,12 +40,24 @@ def liveness_blocks(fn, region):
     """blocks (inside region) whose call tests whether the entry's buffer is alive: Weak::upgrade / strong_count called
     directly, or handed as a function item to a combinator (`.and_then(Weak::upgrade)`)"""
     out = set()
+    # calls that are handed a closure of this function whose body makes the test (`.map_or(false, |e| e.strong_count() == 0)`),
+    # matched to their MIR call by span
+    carriers = set()
+    if fn.body is not None:
+        for n in core.walk_fn(fn, into_closures=False):
+            if n.get("k") in ("Call", "MethodCall"):
+                for a in n.get("args") or []:
+                    a0 = core.strip(a)
+                    if a0.get("k") == "Closure" and any(y.get("k") in ("Call", "MethodCall") and LIVENESS_RX.search(core.callee(y) or "") for y in core.walk(a0["body"])):
+                        carriers.add(n.get("sp"))
     for i, cal, gen, t in D.mir_calls(fn):
         if i not in region:
             continue
         if cal and LIVENESS_RX.search(cal):
             out.add(i)
         elif any(a.get("k") == "const" and a.get("fn") and LIVENESS_RX.search(a["fn"]) for a in t.get("args", [])):
+            out.add(i)
+        elif t.get("sp") in carriers:
             out.add(i)
     return out
 
@@ -181,11 +193,24 @@ def run(c, prog):
         c.violation("C18.cta", "drop|last-release|" + ",".join(names), f"SharedString::drop decides `I released the last handle` with Arc::{names}; only Arc::into_inner guarantees that exactly one of several concurrent last drops sees the value (with try_unwrap / strong_count two threads can both conclude they are not last, and the dead table entry is never removed)", drop.sp, instance="drop:last-release-via-into_inner")
     lk = [n for n in core.walk_fn(drop) if n.get("k") == "MethodCall" and n["m"] == "lock"]
     ok = False
+
+    def quiet(e):
+        """nothing happens: no call except constructors of unit-like values"""
+        return not any(x.get("k") in ("Call", "MethodCall") for x in core.walk(e))
     for n in core.walk_fn(drop):
         if n.get("k") == "Match" and n.get("src") == "Normal" and core.strip(n["e"]).get("m") == "lock":
             for arm in n["arms"]:
-                if "Err" in core.pat_str(arm["pat"]) and any(x.get("k") == "Ret" for x in core.walk(arm["body"])):
+                if "Err" in core.pat_str(arm["pat"]) and (any(x.get("k") == "Ret" for x in core.walk(arm["body"])) or quiet(arm["body"])):
                     ok = True
+        # `if let Ok(mut cache) = TABLE.lock() { .. }` with nothing (or nothing that calls) on the other side
+        if n.get("k") == "If":
+            cnd = core.strip(n["c"])
+            if cnd.get("k") == "LetExpr" and core.strip(cnd["init"]).get("m") == "lock" and "Ok" in core.pat_str(cnd["pat"]) and ("f" not in n or quiet(n["f"])):
+                ok = True
+    # `let Ok(cache) = TABLE.lock() else { return };`
+    for st in core.walk_lets(drop.body):
+        if st.get("els") is not None and core.strip(st.get("init") or {}).get("m") == "lock" and "Ok" in core.pat_str(st["pat"]):
+            ok = True
     if ok:
         c.ok(R, "drop:poison-returns")
     else:
